@@ -63,13 +63,15 @@ def theorems_of(mod):
     return [ns + t for t in re.findall(r'^(?:protected\s+)?theorem\s+([\w.\']+)', src, re.M)]
 
 
-def regenerate(res):
-    """translator step: regenerate PGM/Generated/* from /repo's working tree"""
-    rc, out = sh([sys.executable, os.path.join(VERIF, 'tools', 'py2lean.py'), '--repo', common.REPO,
-                  '--out', os.path.join(LEAN_DIR, 'PGM', 'Generated')])
-    rc2, out2 = sh([sys.executable, os.path.join(VERIF, 'tools', 'py2flow.py'), '--repo', common.REPO,
-                    '--out', os.path.join(LEAN_DIR, 'PGM', 'Generated')])
-    return rc == 0 and rc2 == 0, out + out2
+def regenerate(res, translators=('py2lean', 'py2flow')):
+    """translator step: regenerate PGM/Generated/* from the repository's working tree"""
+    ok, outs = True, ''
+    for t in translators:
+        rc, out = sh([sys.executable, os.path.join(VERIF, 'tools', t + '.py'), '--repo', common.REPO,
+                      '--out', os.path.join(LEAN_DIR, 'PGM', 'Generated')])
+        ok = ok and rc == 0
+        outs += out
+    return ok, outs
 
 
 def build(mods, exe):
@@ -172,8 +174,9 @@ def main():
     thms, discharged = [], []
     try:
         # 1. regenerate
-        if getattr(mod, 'NEEDS_GENERATED', False):
-            ok, out = regenerate(res)
+        translators = getattr(mod, 'TRANSLATORS', ('py2lean', 'py2flow') if getattr(mod, 'NEEDS_GENERATED', False) else ())
+        if translators:
+            ok, out = regenerate(res, translators)
             if not ok:
                 broken.append({'theorem': None, 'stage': 'translate', 'detail': out[-1500:]})
         # 2. build
